@@ -145,6 +145,24 @@ def run(ck, prog, ctx):
             vby.setdefault(v_.rsplit("::", 1)[-1], []).append(t_)
         check_required_steps(ck, "KIND", prog, cic0, [(k, (lambda kk: (lambda t: (t.callee.res or "").endswith("::calculate_%s_ic" % kk) or any(t is x for x in vby.get("set_" + kk, []))))(k)) for k in ("gene", "omim_disease", "orpha_disease")])
 
+    # ---- whatever computes the IC on behalf of calculate_information_content walks ALL terms: the Builder methods (of any visibility) and the
+    # private helpers it reaches that enumerate the arena (`values_mut` / `values` / `iter` / `keys`) use no truncating adaptor on the way.
+    # (`Arena::values_mut()` already leaves the placeholder slot out; a `.skip(1)` on top of it skips the first real term, which keeps IC 0.)
+    if cic0 is not None:
+        walkers_ = []
+        for rid_ in sorted(prog.reachable_bodies([cic0.id])):
+            rb_ = prog.bodies.get(rid_)
+            if rb_ is None or rb_.kind not in ("Fn", "AssocFn") or rb_.test or rb_.id in by_body or not rb_.id.startswith("ontology::builder::"):
+                continue
+            if any((t_.callee.res or "").startswith("ontology::termarena::Arena::") and t_.callee.res.rsplit("::", 1)[-1] in ("values_mut", "values", "iter", "keys") for fb_ in prog.family(rb_) for _, t_ in fb_.calls()) \
+                    and any("InformationContent" in (t_.callee.res or "") or (t_.callee.res or "").endswith("::information_content_mut") for fb_ in prog.family(rb_) for _, t_ in fb_.calls()):
+                walkers_.append(rb_)
+        from engines import hard_truncations as _ht3
+        ck.rule("WALK", "every Builder function reached from calculate_information_content that enumerates the term arena and writes information content walks ALL terms (no skip / take / step_by ... on the way); the instances are found by what they call, not by name")
+        for rb_ in walkers_:
+            cut_ = _ht3(prog, rb_)
+            ck.ob("WALK", "ic-walk/" + rb_.short, not cut_, "%s (reached from calculate_information_content, enumerates the arena) %s" % (rb_.short, "walks every term" if not cut_ else "drops terms with `%s` (line %s): their information content stays 0" % (cut_[0][1].callee.method, cut_[0][1].line)), where=rb_.where(cut_[0][1].line if cut_ else None))
+
     # ---- inside the setters
     calc = prog.body(IC + "::calculate")
     for setter, K in sorted(SETTERS.items()):
